@@ -155,23 +155,17 @@ def judgeC02 (ops impl : List String) : Bool × String :=
   judgeStacks (fun orig out => if orig.length < 500 then out == orig else elisionOk orig out) (fun _ _ => "")
     "attribution" ops impl
 
-/-- Reason tags of the two recorded deviations of the depth limiter (it decides by the *recorded* length
-while label frames come on top): the tag is attached to a failure of the full statement only if the output is
-otherwise faithful —
-
-* `[js-label-depth]`: the original (emitted) stack contains JS label frames, and either the recorded depth is
-  below 500 and the stack reached the profile unchanged, or everything but the two upper bounds on the depth
-  holds (`elisionOkButDepth`);
-* `[percpu-label-499]`: a per-CPU copy (thread label + 499 recorded frames = 500 frames) reached the profile
-  unchanged. -/
+/-- Reason tag of the recorded deviation of the depth limiter (it decides by the *recorded* length while JS
+label frames come on top): `[js-label-depth]` is attached to a failure of the full statement only if the
+original (emitted) stack contains JS label frames and the output is otherwise faithful — either the recorded
+depth is below 500 and the stack reached the profile unchanged, or everything but the two upper bounds on the
+depth holds (`elisionOkButDepth`). -/
 def tagC14 (orig out : List Frame) : String :=
   let nrec := (orig.filter (fun f => match f with | .label _ => false | .tlabel _ => false | _ => true)).length
   if elisionOk orig out then "" else
   if orig.any isLabel then
     (if (decide (nrec < 500) && out == orig) || elisionOkButDepth orig out then "[js-label-depth] " else "")
-  else match orig with
-    | .tlabel _ :: _ => if nrec == 499 && out == orig then "[percpu-label-499] " else ""
-    | _ => ""
+  else ""
 
 /-- C14: the output stack is an admissible shortening of the declaratively attributed stack — the full
 statement `elisionOk` on the complete frame list that would reach the profile without the limiter (JS label
